@@ -114,6 +114,20 @@ Definition pre_edges (latlon : bool) (r : T) (edges : list T) : list T :=
 Definition centers (edges : list T) : list T :=
   map (fun i => ndiv O (nadd O (aget z edges i) (aget z edges (i + 1))) (nlit O 2 0)) (seq 0 (length edges - 1)).
 
+(* ---- vario_estimate_axis (= vario_estimate_structured): missing values and the field's own mask.
+   field values f (rows x cols after moving the chosen axis to the front), own mask (all false if the field is a plain
+   array), no_data.  A cell is missing iff its value is NaN (no_data = NaN) resp. isclose to no_data (a NaN value is then an
+   ordinary value); the mask handed to the masked kernel is  own mask OR missing;  the plain kernel is used iff no
+   cell is masked and none is missing. *)
+Definition axis_missing (nd x : T) : bool := if nisnan O nd then nisnan O x else isclose x nd.
+Definition axis_mask (nd : T) (own : list (list bool)) (f : list (list T)) : list (list Z) :=
+  map (fun i => map (fun j => if orb (nth j (nth i own []) false) (axis_missing nd (aget2 z f i j)) then 1%Z else 0%Z)
+                    (seq 0 (shape1 f))) (seq 0 (shape0 f)).
+Definition axis_masked (nd : T) (own : list (list bool)) (f : list (list T)) : bool :=
+  existsb (fun row => existsb (fun c => negb (Z.eqb c 0)) row) (axis_mask nd own f).
+Definition axis_estimate (nd : T) (own : list (list bool)) (f : list (list T)) (et : Z) : list T :=
+  if axis_masked nd own f then ma_structured_spec O f (axis_mask nd own f) et else structured_spec O f et.
+
 (* ---- structured mesh -> point list ('ij' meshgrid, C order: first axis slowest) *)
 Fixpoint grid_points (axes : list (list T)) : list (list T) :=
   match axes with
@@ -205,6 +219,26 @@ Proof.
     { destruct (nth p sel false) eqn:E; auto. exfalso. apply Hn. apply keep_idx_In. rewrite L. auto. }
     unfold nan_marked in *. unfold shape0 in Hm. rewrite map_length, seq_length in Hm.
     rewrite rows_get by (auto; lia). rewrite E. simpl. rewrite orb_true_r. exact Hnan.
+Qed.
+
+(* axis estimator: a lag pair (i,j)-(i+k,j) is used by the masked kernel iff NEITHER cell is masked by the field's
+   own mask NOR missing (NaN / no_data) *)
+Lemma axis_mask_get nd own (f : list (list T)) i j : i < shape0 f -> j < shape1 f ->
+  aget2 0%Z (axis_mask O nd own f) i j
+  = if orb (nth j (nth i own []) false) (axis_missing O nd (aget2 z f i j)) then 1%Z else 0%Z.
+Proof.
+  intros Hi Hj. unfold axis_mask, aget2, arow.
+  rewrite (nth_map_in _ (seq 0 (shape0 f)) i 0 []) by (now rewrite seq_length). rewrite seq_nth by auto. simpl.
+  now apply aget_map_seq.
+Qed.
+Theorem axis_pair_used nd own (f : list (list T)) i j k : i + k < shape0 f -> j < shape1 f ->
+  andb (Z.eqb (aget2 0%Z (axis_mask O nd own f) i j) 0) (Z.eqb (aget2 0%Z (axis_mask O nd own f) (i + k) j) 0) = true
+  <-> (nth j (nth i own []) false = false /\ axis_missing O nd (aget2 z f i j) = false) /\
+      (nth j (nth (i + k) own []) false = false /\ axis_missing O nd (aget2 z f (i + k) j) = false).
+Proof.
+  intros Hi Hj. rewrite !axis_mask_get by (auto; lia). rewrite andb_true_iff.
+  destruct (nth j (nth i own []) false), (axis_missing O nd (aget2 z f i j)),
+           (nth j (nth (i + k) own []) false), (axis_missing O nd (aget2 z f (i + k) j)); simpl; intuition discriminate.
 Qed.
 
 (* Sturges' rule in integers: s = ceil(2 log2 n + 1)  <=>  2^(s-2) < n^2 <= 2^(s-1)  (n >= 2) *)
